@@ -16,6 +16,7 @@ use super::*;
 //%include shim_uint128.rs
 //%include shim_cw.rs
 //%include helpers.rs
+//%include shim_fmt.rs
 }
 pub use shim::*;
 pub mod math {
